@@ -1020,3 +1020,284 @@ Proof.
 Qed.
 
 End Timeline.
+
+(** * The reference is a well-formed looped video representation (C01: [Timeline.S], [Timeline.E]) *)
+
+From Verif Require Timeline TimelineProofs.
+
+Section Reference.
+Variables r F a : Z.
+Hypothesis Hr : 0 < r.
+Hypothesis HF : 0 < F.
+Hypothesis HF32 : F < two32.
+Hypothesis Ha : 0 < a.
+Variable vr : Timeline.rep.
+Variable loopMS : Z.
+Hypothesis W : Timeline.wf vr loopMS.
+Notation f := (fb r F a).
+Notation c := (fidx r F a).
+Notation Sv := (Timeline.S vr).
+Notation Ev := (Timeline.E vr).
+Notation Dv := (Timeline.repDuration vr).
+Notation Nv := (Timeline.nsegs vr).
+
+(** start of the loop that contains reference segment [n] *)
+Definition loop_start (n : Z) : Z := n / Nv * Dv.
+
+(** ranges and reach for reference segment [n] *)
+Record ref_pre (segs : list seg) (n : Z) : Prop := {
+  rp_n : 0 <= n;
+  rp_wf : awf F segs;
+  rp_n32 : tot segs < two32;
+  rp_l63 : tot segs * F < two63;
+  rp_range : (loop_start n + Dv) * a + 2 * F * r < two64;
+  rp_reach : c (Sv n) - c (loop_start n) < tot segs;
+  rp_b32 : c (Ev n) - c (loop_start n) < two32
+}.
+
+Definition ref_not_inner (segs : list seg) (n : Z) : Prop :=
+  inner segs (f (Sv n) - f (loop_start n)) (f (Ev n) - f (loop_start n)) = false.
+
+Lemma ref_decompose n : 0 <= n ->
+  let w := n / Nv in let i := n mod Nv in
+  let s' := Timeline.st (Timeline.segAt vr i) in let e' := Timeline.en (Timeline.segAt vr i) in
+  Sv n = w * Dv + s' /\ Ev n = w * Dv + e' /\ 0 <= w /\ 0 <= s' /\ s' < e' /\ e' <= Dv /\ 0 < Dv.
+Proof.
+  intros Hn w i s' e'.
+  pose proof (TimelineProofs.nsegs_pos vr loopMS W) as HN.
+  assert (Hi : 0 <= i < Nv) by (apply Z.mod_pos_bound; lia).
+  pose proof (TimelineProofs.st_nonneg vr loopMS W i Hi).
+  pose proof (TimelineProofs.seg_pos vr loopMS W i Hi).
+  pose proof (TimelineProofs.en_le_dur vr loopMS W i Hi).
+  pose proof (TimelineProofs.repDuration_pos vr loopMS W).
+  assert (0 <= w) by (apply Z.div_pos; lia).
+  unfold Timeline.S, Timeline.E. fold w i s' e'. repeat split; lia.
+Qed.
+
+Lemma ref_served_pre segs n :
+  ref_pre segs n ->
+  served_pre r F a segs Dv (n / Nv) (Timeline.st (Timeline.segAt vr (n mod Nv)))
+             (Timeline.en (Timeline.segAt vr (n mod Nv))).
+Proof.
+  intros []. destruct (ref_decompose n rp_n0) as (ES & EE & Hw & Hs & Hse & He & HD).
+  unfold loop_start in *. rewrite ES in rp_reach0. rewrite EE in rp_b33.
+  constructor; try assumption; lia.
+Qed.
+
+(** C03_frames: the served audio segment for reference segment [n]. *)
+Lemma ref_served_frames nr segs n :
+  ref_pre segs n -> ref_not_inner segs n ->
+  audio_segment nr (Sv n) (Ev n) Dv r F a segs =
+  Ok {| o_tfdt := f (Sv n); o_seq := nr;
+        o_frames := map (fun g => Z.min (g - c (loop_start n)) (tot segs - 1))
+                        (rangeZ (c (Sv n)) (c (Ev n))) |}.
+Proof.
+  intros P Hni. pose proof (ref_served_pre segs n P) as SP.
+  destruct (ref_decompose n (rp_n _ _ P)) as (ES & EE & _).
+  unfold ref_not_inner, loop_start in *. rewrite ES, EE in *.
+  apply served_frames; assumption.
+Qed.
+
+Lemma ref_served_inner_fails nr segs n :
+  ref_pre segs n -> ~ ref_not_inner segs n ->
+  audio_segment nr (Sv n) (Ev n) Dv r F a segs = Err "audioLeft != audioInEndAfterWrap".
+Proof.
+  intros P Hni. pose proof (ref_served_pre segs n P) as SP.
+  destruct (ref_decompose n (rp_n _ _ P)) as (ES & EE & _).
+  unfold ref_not_inner, loop_start in *. rewrite ES, EE in *.
+  apply served_inner_fails; assumption.
+Qed.
+
+(** the request is answered with a segment exactly when the output interval is not inner *)
+Lemma ref_served_iff nr segs n :
+  ref_pre segs n ->
+  ((exists o, audio_segment nr (Sv n) (Ev n) Dv r F a segs = Ok o) <-> ref_not_inner segs n).
+Proof.
+  intros P. split.
+  - intros [o Ho]. unfold ref_not_inner.
+    destruct (inner segs _ _) eqn:I; [|reflexivity].
+    rewrite (ref_served_inner_fails nr segs n P) in Ho; [discriminate|].
+    unfold ref_not_inner. rewrite I. discriminate.
+  - intros Hni. eexists. apply ref_served_frames; assumption.
+Qed.
+
+(** C03_abut: whenever two consecutive segments are served, the first starts at the frame boundary
+    of its reference start, holds [(end - start)/F] frames of duration [F], and the second starts
+    exactly where the first ends -- also when [n+1] is the first segment of the next loop. *)
+Lemma ref_abut nr1 nr2 segs n o1 o2 :
+  ref_pre segs n -> ref_pre segs (n + 1) ->
+  audio_segment nr1 (Sv n) (Ev n) Dv r F a segs = Ok o1 ->
+  audio_segment nr2 (Sv (n + 1)) (Ev (n + 1)) Dv r F a segs = Ok o2 ->
+  o_tfdt o1 = f (Sv n) /\
+  lenZ (o_frames o1) = (f (Ev n) - f (Sv n)) / F /\
+  (f (Ev n) - f (Sv n)) mod F = 0 /\
+  o_tfdt o1 + lenZ (o_frames o1) * F = o_tfdt o2.
+Proof.
+  intros P1 P2 H1 H2.
+  assert (N1 : ref_not_inner segs n) by (apply (ref_served_iff nr1 segs n P1); eauto).
+  assert (N2 : ref_not_inner segs (n + 1)) by (apply (ref_served_iff nr2 segs (n + 1) P2); eauto).
+  rewrite (ref_served_frames nr1 segs n P1 N1) in H1. injection H1 as <-.
+  rewrite (ref_served_frames nr2 segs (n + 1) P2 N2) in H2. injection H2 as <-.
+  cbn [o_tfdt o_frames].
+  pose proof (TimelineProofs.S_E_contiguous vr loopMS W n (rp_n _ _ P1)) as Hc.
+  pose proof (TimelineProofs.S_lt_E vr loopMS W n (rp_n _ _ P1)) as Hlt.
+  pose proof (fidx_mono r F a Hr HF Ha (Sv n) (Ev n) ltac:(lia)) as Hm.
+  assert (HL : lenZ (map (fun g => Z.min (g - c (loop_start n)) (tot segs - 1)) (rangeZ (c (Sv n)) (c (Ev n))))
+               = c (Ev n) - c (Sv n)).
+  { unfold lenZ. rewrite map_length. fold (lenZ (rangeZ (c (Sv n)) (c (Ev n)))). now apply lenZ_rangeZ. }
+  rewrite HL. unfold fb.
+  replace (c (Ev n) * F - c (Sv n) * F) with ((c (Ev n) - c (Sv n)) * F) by ring.
+  rewrite Z.div_mul, Z.mod_mul by lia. rewrite Hc. repeat split; ring.
+Qed.
+
+End Reference.
+
+(** * The recipe in general: start and end are the frame boundaries of the reference segment *)
+
+Lemma recipe_start_end r F a nr s e D :
+  0 < r -> 0 < F -> 0 < a -> 0 < D -> 0 <= s -> s <= e -> e * a + F * r < two64 ->
+  exists rc, calcAudioSegRecipe nr s e D r F a = Ok rc
+             /\ r_nr rc = nr /\ r_start rc = fb r F a s /\ r_end rc = fb r F a e.
+Proof.
+  intros Hr HF Ha HD Hs Hse Hrange. unfold calcAudioSegRecipe.
+  assert (Hb : forall t, 0 <= t <= e -> t * a + F * r < two64) by (intros; nia).
+  rewrite (calc_is_fb r F a Hr HF Ha s) by (try apply Hb; lia).
+  rewrite (calc_is_fb r F a Hr HF Ha e) by (try apply Hb; lia).
+  cbn [bind]. replace (D =? 0) with false by lia.
+  assert (Hsw : 0 <= s / D * D <= s) by (pose proof (Z.div_mod s D ltac:(lia)); pose proof (Z.mod_pos_bound s D HD);
+    assert (0 <= s / D) by (apply Z.div_pos; lia); nia).
+  assert (Hew : 0 <= e / D * D <= e) by (pose proof (Z.div_mod e D ltac:(lia)); pose proof (Z.mod_pos_bound e D HD);
+    assert (0 <= e / D) by (apply Z.div_pos; lia); nia).
+  assert (He64 : e < two64) by nia.
+  rewrite (u64_small (s / D * D)) by lia. rewrite (u64_small (e / D * D)) by lia.
+  rewrite (calc_is_fb r F a Hr HF Ha (s / D * D)) by (try apply Hb; lia).
+  rewrite (calc_is_fb r F a Hr HF Ha (e / D * D)) by (try apply Hb; lia).
+  cbn [bind].
+  destruct (_ >? _); [destruct (_ <? _)|]; eexists; (split; [reflexivity|cbn; auto]).
+Qed.
+
+(** * Witnesses *)
+
+(** four 2 s video segments at 90 kHz (testpic_2s/V300), loop 8 s *)
+Definition w_video : Timeline.rep :=
+  {| Timeline.segs := [ Timeline.Build_seg 0 180000 1; Timeline.Build_seg 180000 360000 2;
+                        Timeline.Build_seg 360000 540000 3; Timeline.Build_seg 540000 720000 4 ];
+     Timeline.ts := 90000 |}.
+
+Lemma w_video_wf : Timeline.wf w_video 8000.
+Proof.
+  constructor; cbn.
+  - discriminate.
+  - repeat constructor.
+  - repeat split.
+  - reflexivity.
+  - reflexivity.
+  - reflexivity.
+Qed.
+
+(** one 8 s audio segment of 375 AAC frames at 48 kHz (testpic_8s/A48): scratch asset a8v2 *)
+Definition w_audio8 : list seg := [ Build_seg 0 384000 375 ].
+(** four 2 s audio segments (testpic_2s/A48: 94, 94, 94, 93 frames) *)
+Definition w_audio2 : list seg :=
+  [ Build_seg 0 96256 94; Build_seg 96256 192512 94; Build_seg 192512 288768 94; Build_seg 288768 384000 93 ].
+(** the same with the last three frames removed (scratch asset short3) *)
+Definition w_audio2short : list seg :=
+  [ Build_seg 0 96256 94; Build_seg 96256 192512 94; Build_seg 192512 288768 94; Build_seg 288768 380928 90 ].
+
+Lemma w_ref_pre segs n :
+  (0 <=? n) && (n <? 1000000) = true ->
+  awf 1024 segs -> tot segs < two32 -> tot segs * 1024 < two63 ->
+  fidx 90000 1024 48000 (Timeline.S w_video n) - fidx 90000 1024 48000 (loop_start w_video n) < tot segs ->
+  ref_pre 90000 1024 48000 w_video segs n.
+Proof.
+  intros Hn Hwf H32 H63 Hreach.
+  assert (Hn' : 0 <= n < 1000000) by lia.
+  assert (HN : Timeline.nsegs w_video = 4) by reflexivity.
+  assert (HD : Timeline.repDuration w_video = 720000) by reflexivity.
+  destruct (ref_decompose w_video 8000 w_video_wf n ltac:(lia)) as (ES & EE & Hw & Hs & Hse & He & HDp).
+  assert (Hw2 : n / Timeline.nsegs w_video < 250000) by (rewrite HN; apply Z.div_lt_upper_bound; lia).
+  constructor; try assumption; try lia.
+  - unfold loop_start. rewrite HD in *. unfold two64. lia.
+  - unfold loop_start. rewrite EE. rewrite HD in *.
+    set (w := n / Timeline.nsegs w_video) in *.
+    pose proof (fidx_mono 90000 1024 48000 ltac:(lia) ltac:(lia) ltac:(lia)
+                  (w * 720000 + Timeline.en (Timeline.segAt w_video (n mod Timeline.nsegs w_video)))
+                  (w * 720000 + 720000) ltac:(lia)) as M.
+    unfold fidx in *. rewrite (Z.mul_comm (w * 720000 + 720000)) in M.
+    replace (48000 * (w * 720000 + 720000)) with (48000 * (w * 720000) + 375 * (90000 * 1024)) in M by ring.
+    rewrite (Z.mul_comm 48000 (w * 720000)) in M.
+    rewrite cdiv_add_mult in M by lia. unfold two32. lia.
+Qed.
+
+(** C03_inner_refuted: asset a8v2, reference segment 1 = [180000, 360000) of 90 kHz: the output
+    interval [93/375 .. 188/375) lies strictly inside the only VoD audio segment; the request fails. *)
+Lemma inner_refuted_witness :
+  ref_pre 90000 1024 48000 w_video w_audio8 1 /\
+  ~ ref_not_inner 90000 1024 48000 w_video w_audio8 1 /\
+  audio_segment 1 (Timeline.S w_video 1) (Timeline.E w_video 1) (Timeline.repDuration w_video)
+                90000 1024 48000 w_audio8 = Err "audioLeft != audioInEndAfterWrap".
+Proof.
+  split; [|split].
+  - apply w_ref_pre; try (vm_compute; reflexivity).
+    + split; [discriminate|]. cbn. repeat split; reflexivity.
+  - unfold ref_not_inner. vm_compute. discriminate.
+  - vm_compute. reflexivity.
+Qed.
+
+(** C03_short_audio_refuted: an audio table that does not reach the start of the reference segment.
+    With the first two 2 s audio segments against the 8 s video loop, reference segment 2 gives an
+    error return; with only the first one, reference segment 3 gives an index out of range
+    ([startNr = audioInStart / duration = 3]). *)
+Definition w_audio_half : list seg := [ Build_seg 0 96256 94; Build_seg 96256 192512 94 ].
+Definition w_audio_quarter : list seg := [ Build_seg 0 96256 94 ].
+
+Lemma short_audio_refuted_witness :
+  awf 1024 w_audio_half /\ awf 1024 w_audio_quarter /\
+  audio_segment 2 (Timeline.S w_video 2) (Timeline.E w_video 2) (Timeline.repDuration w_video)
+                90000 1024 48000 w_audio_half = Err "audioLeft != audioInEndAfterWrap" /\
+  audio_segment 3 (Timeline.S w_video 3) (Timeline.E w_video 3) (Timeline.repDuration w_video)
+                90000 1024 48000 w_audio_quarter = Panic "createAudioSeg: index out of range (rep.Segments[startNr])".
+Proof.
+  split; [|split; [|split]].
+  - split; [discriminate|]. cbn. repeat split; reflexivity.
+  - split; [discriminate|]. cbn. repeat split; reflexivity.
+  - vm_compute. reflexivity.
+  - vm_compute. reflexivity.
+Qed.
+
+(** Non-vacuity of the frames theorem, with padding: asset short3 (audio loop three frames shorter
+    than the video loop), last reference segment of loop 2 (n = 11): frames 282..371 of the source,
+    then the last frame (371) three more times; the next segment starts at source frame 0. *)
+Lemma frames_example :
+  ref_pre 90000 1024 48000 w_video w_audio2short 11 /\
+  ref_not_inner 90000 1024 48000 w_video w_audio2short 11 /\
+  (forall o, audio_segment 12 (Timeline.S w_video 11) (Timeline.E w_video 11) (Timeline.repDuration w_video)
+                           90000 1024 48000 w_audio2short = Ok o ->
+             o_tfdt o = 1056768 /\ o_seq o = 12 /\
+             o_frames o = rangeZ 282 372 ++ [371; 371; 371]).
+Proof.
+  split; [|split].
+  - apply w_ref_pre; try (vm_compute; reflexivity).
+    split; [discriminate|]. cbn. repeat split; reflexivity.
+  - unfold ref_not_inner. vm_compute. reflexivity.
+  - intros o. vm_compute. intros H. injection H as <-. repeat split.
+Qed.
+
+(** * C03_boundary, collected *)
+Lemma boundary_all r F a t :
+  0 < r -> 0 < F -> 0 < a -> 0 <= t -> t * a + F * r < two64 ->
+  calcAudioTimeFromRef t r F a = Ok (fb r F a t)
+  /\ fb r F a t mod F = 0
+  /\ t * a <= fb r F a t * r
+  /\ fb r F a t * r - t * a < F * r
+  /\ (forall m, m mod F = 0 -> t * a <= m * r -> fb r F a t <= m)
+  /\ (forall t', t <= t' -> fb r F a t <= fb r F a t').
+Proof.
+  intros Hr HF Ha Ht Hrange. repeat split.
+  - exact (calc_is_fb r F a Hr HF Ha t Ht Hrange).
+  - exact (fb_mod r F a HF t).
+  - exact (fb_ge r F a Hr HF t).
+  - exact (fb_lt r F a Hr HF t).
+  - exact (fb_least r F a Hr HF t).
+  - exact (fb_mono r F a Hr HF Ha t).
+Qed.
